@@ -131,7 +131,7 @@ def check(ctx, rep):
     av = ctx.fn(A + ':Arrays.varptr')
     r = [x for x in own_nodes(av) if isinstance(x, ast.Return)][0].value
     rep.ob('varptr.array-element', 'VARPTR(element) = array area start + buffer offset + element size * flat index',
-           lin(r) == {'self._memory.var_current()': 1, 'array_ptr': 1, 'values.size_bytes(name) * self.index(indices, dimensions)': 1}, repr(lin(r)), ctx.where(av))
+           lin(r) == {'self._memory.var_current()': 1, 'array_ptr': 1, 'self.index(indices, dimensions)*values.size_bytes(name)': 1}, repr(lin(r)), ctx.where(av))
     vp = ctx.fn(M + ':DataSegment.varptr_str_')
     pk = [n for n in own_nodes(vp) if isinstance(n, ast.Call) and norm(n.func) == 'struct.pack']
     rep.ob('varptr.string-form', 'VARPTR$ = size byte + the address VARPTR computes',
